@@ -112,6 +112,7 @@ pub fn run(ctx: &Ctx, rep: &mut Report) {
         let apps = [("example", example, "executed"), ("miniapp", mini, "mini_executed")];
         let mut ctr = 0u32;
         let mut alive = true;
+        let mut gw_window = false;
         for round in 0..3 {
             if !alive {
                 break;
@@ -237,9 +238,31 @@ pub fn run(ctx: &Ctx, rep: &mut Report) {
                     }
                     if let Some(a) = &approved {
                         if !g.approve_honest(&mut u, &ring, &[a.clone()]) {
+                            if gw_window {
+                                // a gateway may refuse approvals while it migrates
+                                rep.count("note:valid-request-refused-while-migration-window-open");
+                                continue;
+                            }
                             rep.foreign("honest-approval-refused");
                             alive = false;
                             break;
+                        }
+                    }
+                    // now and then the gateway is upgraded (to the same code) between the approval and the
+                    // delivery and migrated a few deliveries later: inside that window a delivery may be
+                    // refused, but one that is accepted consumes its approval like any other
+                    if !gw_window && rng.chance(1, 10) {
+                        let ga = g.addr.clone();
+                        if u.upgrade_only(&ga).is_ok() {
+                            gw_window = true;
+                            rep.count("gateway-migration-window-opened");
+                            rep.step("the gateway is upgraded to the same code: its migration window opens".into());
+                        }
+                    } else if gw_window && rng.chance(1, 4) {
+                        let ga = g.addr.clone();
+                        if u.migrate_only(&ga, &[]).is_ok() {
+                            gw_window = false;
+                            rep.step("the gateway's migration runs: the window closes".into());
                         }
                     }
                     // sometimes a long time passes between the approval and the delivery
@@ -288,6 +311,10 @@ pub fn run(ctx: &Ctx, rep: &mut Report) {
                                 break;
                             }
                         }
+                        continue;
+                    }
+                    if !o.ok() && gw_window {
+                        rep.count("note:valid-request-refused-while-migration-window-open");
                         continue;
                     }
                     if !o.ok() {
